@@ -92,7 +92,10 @@ func (o *uniObs16) measure(u *sdf.UnionSDF2, p v2.Vec) {
 	f := u.Evaluate(p)
 	s := u.EvaluateSlow(p)
 	eq, eqr, un := 0, 1, 0
-	if f == s {
+	// equal up to the rounding of the operands' own values: an operand evaluated on its boundary returns 1e-15 where
+	// the distance to its box is 2e-15, so "no closer than its box" holds only to that accuracy and the pruned and
+	// the exhaustive minimum may differ in the last bits (seed 62: 1.33e-15 vs 1.26e-15 at a box corner)
+	if f == s || math.Abs(f-s) <= 1e-14*(1+math.Abs(p.X)+math.Abs(p.Y)) {
 		eq = 1
 	}
 	if o.operands != nil && o.Kn == 0 {
